@@ -66,15 +66,16 @@ for _style, _doc in list(SKELETONS.items()) + list(EXTRA_SKELETONS.items()):
             if _mode == "sub" and _pos >= len(_doc):
                 continue
             _ALL.append((_style, _pos, _mode, _doc))
-_QUICK = set(random.Random(SEED).sample(range(len(_ALL)), 48))
+_SHORT = [i for i, (st, pos, mode, doc) in enumerate(_ALL) if len(doc) <= 110]  # quick tier: skeletons of <= 110 characters (a symbolic hole in a longer text costs > 300 CPU-seconds)
+_QUICK = set(random.Random(SEED).sample(_SHORT, 48))
 # the unperturbed-shape representatives of the extra skeletons are always in the quick tier (one hole at the very end)
-_QUICK |= {i for i, (st, pos, mode, doc) in enumerate(_ALL) if st in EXTRA_SKELETONS and mode == "ins" and pos == len(doc)}
+_QUICK |= {i for i, (st, pos, mode, doc) in enumerate(_ALL) if st in EXTRA_SKELETONS and mode == "ins" and pos == len(doc) and len(doc) <= 110}
 for _i, (_style, _pos, _mode, _doc) in enumerate(_ALL):
     _q = _i in _QUICK
     if not _q and _mode != "ins":
         continue
     _np = hole_is_name(_doc, _pos, _mode)
-    ob("C14", "skel.%s.%s%03d" % (_style, _mode, _pos), {"c": PR if _np else CP}, tier="quick" if _q else "thorough", T=300, funcs=FUNCS,
+    ob("C14", "skel.%s.%s%03d" % (_style, _mode, _pos), {"c": PR if _np else CP}, tier="quick" if _q else "thorough", T=300 if len(_doc) <= 110 else 900, funcs=FUNCS,
        assumes=[ADHOC_SHIMS_DOC],
        bound="%s skeleton (%d chars) with %s %s at offset %d" % (
            _style, len(_doc), "any printable ASCII character (name position: dict-key insertion realises, so the range is finite and solver-enumerated)" if _np else "ANY code point",
@@ -173,7 +174,7 @@ for _v, _vn in ((0, "table"), (1, "class")):
              "docstring or not (solver-enumerated): the returned interface is well-formed (only typ/doc/default/x_typ keys) and has exactly the two columns" % (_vn, len(COLKINDS)))(sql_parser)
 
 
-def sig_params_once(kind, documented, nargs, first):
+def sig_params_once(kind, documented, nargs, first, stale=0):
     """every parameter of the parsed signature appears exactly once, also when the caller names the function type / merges an inner function"""
     import ast as _ast
 
@@ -184,7 +185,14 @@ def sig_params_once(kind, documented, nargs, first):
 
     names = [("name", "self", "cls")[first]] + ["p%d" % i for i in range(nargs)]
     sig = ", ".join(names[:1] + ["%s=%d" % (n, 3) for n in names[1:]])
-    doc = "Doc.\n\n" + "".join(":param %s: the %s\n" % (n, n) for n in names if n not in ("self", "cls")) if documented else "Doc."
+    docnames = [n for n in names if n not in ("self", "cls")]
+    if stale == 1 and docnames:
+        docnames = docnames[:-1] + [docnames[-1] + "x"]  # a stale / misspelt entry: as many documented names as the signature has, one of them wrong
+    elif stale == 2 and docnames:
+        docnames = ["zz"] + docnames[1:]  # the FIRST documented name is stale
+    elif stale == 3:
+        docnames = docnames + ["extra"]  # one documented name too many
+    doc = "Doc.\n\n" + "".join(":param %s: the %s\n" % (n, n) for n in docnames) if documented else "Doc."
     if kind == 0:
         src = "def create(%s):\n    \'\'\'\n    %s\n    \'\'\'\n    return 1\n" % (sig, doc.replace("\n", "\n    "))
         call = lambda: cdd.function.parse.function(_ast.parse(src).body[0])
@@ -217,11 +225,11 @@ def sig_params_once(kind, documented, nargs, first):
     return ""
 
 
-ob("C14", "ast.signature_once", {"kind": R(0, 2), "documented": BOOL, "nargs": R(0, 2), "first": R(0, 2)}, enum=True, T=600, tpath=60,
+ob("C14", "ast.signature_once", {"kind": R(0, 2), "documented": BOOL, "nargs": R(0, 3), "first": R(0, 2), "stale": R(0, 3)}, enum=True, T=600, tpath=60,
    funcs=["cdd.function.parse.function", "cdd.class_.parse.class_", "cdd.class_.parse._merge_inner_function", "cdd.shared.parse.utils.parser_utils.ir_merge"],
    assumes=[ADHOC_SHIMS_DOC],
    bound="function(def), function(def, function_type=...), class_(cls, merge_inner_function='create') on a def whose first argument is a plain name / self / cls, "
-         "0..2 further defaulted parameters, documented or not (solver-enumerated): well-formed result, every signature parameter exactly once")(sig_params_once)
+         "0..3 further defaulted parameters, documented or not, the documented names exact / last one misspelt / first one stale / one too many (solver-enumerated): well-formed result, every signature parameter exactly once")(sig_params_once)
 
 
 # the JSON-schema parser: a schema written by hand (not by the emitter) with ANY subset of keywords per property ----------------------------------
